@@ -7,6 +7,7 @@ import (
 	"hash/fnv"
 	"os"
 	"sort"
+	"strings"
 )
 
 type Disagreement struct {
@@ -74,9 +75,17 @@ func (r *Report) Disagree(d Disagreement) {
 	// keep the 3 shortest per class (the number of classes of a stream is small and fixed; the overall bound only guards
 	// against a stream that invents a class per case). A low overall bound let the early classes of a stream crowd out the
 	// later ones, and a property that reads only its own classes then saw nothing.
+	// a panic or a time-out is counted apart from the other disagreements of its class: a property that reads only those (C09)
+	// must not find them crowded out by three wrong answers of the same class
+	key := func(x Disagreement) string {
+		if strings.HasPrefix(x.Go, "PANIC") || strings.HasPrefix(x.Go, "panic") || strings.HasPrefix(x.Go, "TIMEOUT") {
+			return x.Class + "|crash"
+		}
+		return x.Class
+	}
 	n, longest := 0, -1
 	for i, x := range r.Disagreements {
-		if x.Class == d.Class {
+		if key(x) == key(d) {
 			n++
 			if longest < 0 || len(x.Case) > len(r.Disagreements[longest].Case) {
 				longest = i
